@@ -50,6 +50,7 @@ build_shovel() {
 }
 case "${1:-}" in
   build) build; build_race; build_firstuse; build_shovel; exit 0 ;;
+  C16) build C16; build_shovel; exec "$BIN" run C16 --tier "${2:-${VERIF_TIER:-quick}}" ;;
   C20) build C20; build_shovel; exec "$BIN" run C20 --tier "${2:-${VERIF_TIER:-quick}}" ;;
   C19) build C19; build_shovel; exec "$BIN" run C19 --tier "${2:-${VERIF_TIER:-quick}}" ;;
   replay) build; exec "$BIN" replay "$ARG2" ;;
